@@ -543,7 +543,7 @@ func (fc *FnCtx) havocTarget(st *State, t modTarget) {
 		if t.key == "" {
 			st.heap[g] = vc.fresh("H_"+g, s)
 		} else {
-			vc.colSet(st, g, s, mkSto(h, t.key, vc.fresh("gh", elemOf(s))))
+			vc.colSetStore(st, g, s, h, t.key, "", vc.fresh("gh", elemOf(s)))
 		}
 		return
 	}
@@ -555,9 +555,9 @@ func (fc *FnCtx) havocTarget(st *State, t modTarget) {
 		case t.whole:
 			st.heap[col] = vc.fresh("H_"+col, s)
 		case two:
-			vc.colSet(st, col, s, mkSto(h, lv.Ref, mkSto(mkSel(h, lv.Ref), lv.Idx, vc.fresh("hv", elemOf(elemOf(s))))))
+			vc.colSetStore(st, col, s, h, lv.Ref, lv.Idx, vc.fresh("hv", elemOf(elemOf(s))))
 		default:
-			vc.colSet(st, col, s, mkSto(h, lv.Ref, vc.fresh("hv", elemOf(s))))
+			vc.colSetStore(st, col, s, h, lv.Ref, "", vc.fresh("hv", elemOf(s)))
 		}
 	}
 }
@@ -866,15 +866,15 @@ func (fc *FnCtx) appendOp(st *State, instr ssa.CallInstruction, c *ssa.CallCommo
 		// prefix preserved
 		vc.assume(st, fmt.Sprintf("(forall ((%s Int)) (=> (and (<= 0 %s) (< %s %s)) (= (select %s (+ %s %s)) (select %s (+ %s %s)))))",
 			j, j, j, s.ln(), na, res.off(), j, srcS, s.off(), j))
-		// appended elements
+		// appended elements (same index shape as the prefix fact so that one
+		// trigger serves both)
 		if isNum(n) && numVal(n).IsInt64() && numVal(n).Int64() <= 4 {
 			for k := int64(0); k < numVal(n).Int64(); k++ {
-				vc.assume(st, mkEq(mkSel(na, mkAdd(mkAdd(res.off(), s.ln()), num(k))), mkSel(srcT, mkAdd(t.off(), num(k)))))
+				vc.assume(st, mkEq(mkSel(na, mkAdd(res.off(), mkAdd(s.ln(), num(k)))), mkSel(srcT, mkAdd(t.off(), num(k)))))
 			}
-		} else {
-			vc.assume(st, fmt.Sprintf("(forall ((%s Int)) (=> (and (<= 0 %s) (< %s %s)) (= (select %s (+ (+ %s %s) %s)) (select %s (+ %s %s)))))",
-				j, j, j, n, na, res.off(), s.ln(), j, srcT, t.off(), j))
 		}
+		vc.assume(st, fmt.Sprintf("(forall ((%s Int)) (=> (and (<= %s %s) (< %s %s)) (= (select %s (+ %s %s)) (select %s (+ %s (- %s %s))))))",
+			j, s.ln(), j, j, newLen, na, res.off(), j, srcT, t.off(), j, s.ln()))
 		// in place: everything outside the appended window is unchanged
 		vc.assume(st, mkImp(inplace, fmt.Sprintf("(forall ((%s Int)) (=> (or (< %s (+ %s %s)) (>= %s (+ %s %s))) (= (select %s %s) (select %s %s))))",
 			j, j, s.off(), s.ln(), j, s.off(), newLen, na, j, srcS, j)))
@@ -920,13 +920,13 @@ func (fc *FnCtx) copyOp(st *State, instr ssa.CallInstruction, c *ssa.CallCommon,
 
 func (fc *FnCtx) ghostGet(st *State, name string, s Sort, key Term) Term {
 	col := "ghost." + name
-	return mkSel(fc.vc.colGet(st, col, arrOf(s)), key)
+	return fc.vc.readCol(fc.vc.colGet(st, col, arrOf(s)), key, "", 0)
 }
 
 func (fc *FnCtx) ghostSet(st *State, name string, s Sort, key Term, v Term) {
 	col := "ghost." + name
 	h := fc.vc.colGet(st, col, arrOf(s))
-	fc.vc.colSet(st, col, arrOf(s), mkSto(h, key, v))
+	fc.vc.colSetStore(st, col, arrOf(s), h, key, "", v)
 }
 
 // ghostFrame checks that a ghost update is permitted by the unit's modifies.
